@@ -132,6 +132,52 @@ Proof.
   - destruct Ha as [Ha _], Hb as [Hb _]. apply Hsame; [congruence|lia|exact Hk].
 Qed.
 
+(** * (peer id, dbid) -> channel id is injective on all of u64 *)
+Lemma le_bytes_length n d : length (le_bytes n d) = n.
+Proof. revert d; induction n as [|n IH]; intros d; cbn [le_bytes length]; [reflexivity|]. rewrite IH. reflexivity. Qed.
+
+Lemma le_bytes_inj n : forall d1 d2, d1 < 256 ^ N.of_nat n -> d2 < 256 ^ N.of_nat n ->
+  le_bytes n d1 = le_bytes n d2 -> d1 = d2.
+Proof.
+  induction n as [|n IH]; intros d1 d2 H1 H2 He.
+  - cbn in H1, H2. lia.
+  - cbn [le_bytes] in He. inversion He as [[Hm Hr]].
+    rewrite Nat2N.inj_succ, N.pow_succ_r' in H1, H2.
+    assert (d1 / 256 = d2 / 256) as Hq.
+    { apply IH; [| |exact Hr]; apply N.div_lt_upper_bound; lia. }
+    rewrite (N.div_mod d1 256), (N.div_mod d2 256), Hm, Hq by discriminate. reflexivity.
+Qed.
+
+Lemma le_bytes_nonzero n : forall d, d < 256 ^ N.of_nat n -> d <> 0 -> exists b, In b (le_bytes n d) /\ b <> 0.
+Proof.
+  induction n as [|n IH]; intros d Hd Hnz.
+  - cbn in Hd. lia.
+  - cbn [le_bytes]. destruct (N.eq_dec (d mod 256) 0) as [Hz|Hz].
+    + rewrite Nat2N.inj_succ, N.pow_succ_r' in Hd.
+      destruct (IH (d / 256)) as [b [Hin Hb]].
+      * apply N.div_lt_upper_bound; lia.
+      * intros Hq. apply Hnz. rewrite (N.div_mod d 256), Hz, Hq by discriminate. reflexivity.
+      * exists b. split; [right; exact Hin|exact Hb].
+    + exists (d mod 256). split; [left; reflexivity|exact Hz].
+Qed.
+
+Lemma chan_id_of_inj p1 d1 p2 d2 :
+  length p1 = length p2 -> d1 < two64 -> d2 < two64 ->
+  chan_id_of p1 d1 = chan_id_of p2 d2 -> p1 = p2 /\ d1 = d2.
+Proof.
+  intros Hl H1 H2 He. unfold chan_id_of in He.
+  pose proof (app_inj_len _ _ _ _ Hl He) as Hp. subst p2. apply app_inv_head in He.
+  split; [reflexivity|]. apply (le_bytes_inj 8); [exact H1|exact H2|exact He].
+Qed.
+
+Lemma chan_id_of_api peer dbid : length peer = 33%nat -> 0 < dbid < two64 -> api_id (chan_id_of peer dbid).
+Proof.
+  intros Hl Hd. right. unfold chan_id_of. split.
+  - rewrite app_length, le_bytes_length, Hl. reflexivity.
+  - rewrite skipn_app, Hl, Nat.sub_diag. rewrite skipn_all2 by lia. cbn [app skipn].
+    apply le_bytes_nonzero; [exact (proj2 Hd)|lia].
+Qed.
+
 (** check_future_secret accepts exactly the channel's own secret of the number asked *)
 Lemma check_future_secret_spec (sha : bytes -> bytes) (k : chkeys) (n : nat) (s : bytes) :
   check_future_secret sha k n s = true <-> s = commit_secret sha k n.
